@@ -24,8 +24,10 @@ from fractions import Fraction as F
 import gen
 from props.common import account
 import props.krylov_cases as kc
+import props.reuse_cases as rc
 
-DRIVERS = ["krylov"]
+DRIVERS = ["krylov"] + rc.DRIVERS
+EXTRA_FLAGS = rc.extra_flags()
 TMO = 300   # seconds per driver shard: a diverging (mutated) solver makes the exact rationals explode
 MODEL = "krylov"
 TRUSTED_BASE = [
@@ -161,6 +163,10 @@ def cases(tier, seed):
 
 
 def run(ctx, cases_override=None):
+    # 5. objects other than bare Krylov solvers (props/reuse_cases.py): one object vs fresh objects
+    if cases_override and all(rc.is_reuse_line(l) for l in cases_override):
+        return rc.run(ctx, cases_override)
+    obj_fails = [] if cases_override else rc.run(ctx)
     if cases_override:
         cs = []
         for l in cases_override:
@@ -273,4 +279,4 @@ def run(ctx, cases_override=None):
             if not ok:
                 fails.append(dict(kind="counterexample", case=l, impl=(a or "")[:2000], model=None, op=kind + ":" + meta["solver"], size=len(l), theorem=thm))
     ctx["stats"]["samples"].append(dict(info=info))
-    return fails
+    return fails + obj_fails
